@@ -98,13 +98,13 @@ func newCShared() *cShared {
 	return sh
 }
 
-const cNumOps = 21
+const cNumOps = 23
 
 var cOpNames = [cNumOps]string{"ed.Sign", "ed.Verify", "ed.VerifyExpanded(shared key)", "cache.Verifier.Verify(shared)", "ed.Batch(shared expanded keys)",
 	"x25519.X25519(Basepoint)", "sr.Sign+Verify(shared ctx,keypair)", "ecvrf.Prove+Verify", "h2c.XOF(shared shake)", "ed.Sign(hedged,selfverify)",
 	"ed.NewKeyFromSeed", "x25519.EdKeyConversions", "curve.MulBasepoint(shared user table)", "curve.ExpandedDoubleScalarMul(shared)", "ristretto.MulBasepoint+Expanded(shared)",
 	"merlin.Clone(shared origin)", "sr.Batch(shared keys)", "x25519.DH(shared keys)", "curve.MultiscalarMulVartime(package tables)", "h2c.XMD+ristretto",
-	"ed.Sign(hedged, entropy reader fails)"}
+	"ed.Sign(hedged, entropy reader fails)", "curve.MultiscalarMulVartime(>=190 terms: Pippenger)", "ed.VerifyBatchOnly(>=95 entries: Pippenger)"}
 
 func scal(i int) *scalar.Scalar {
 	d := sha512.Sum512([]byte{'s', byte(i), byte(i >> 8)})
@@ -246,6 +246,40 @@ func (sh *cShared) op(kind, i int) []byte {
 		p.MultiscalarMulVartime(ss, ps)
 		q.MultiscalarMul(ss, ps)
 		return append(edBytes(&p), edBytes(&q)...)
+	case 21:
+		n := 190 + i%12
+		ss := make([]*scalar.Scalar, n)
+		ps := make([]*curve.EdwardsPoint, n)
+		for j := range ss {
+			ss[j] = scal(i + j%7)
+			ps[j] = curve.ED25519_BASEPOINT_POINT
+			if j%3 == 1 {
+				ps[j] = sh.pt
+			} else if j%5 == 2 {
+				ps[j] = curve.EIGHT_TORSION[j%8]
+			}
+		}
+		var p curve.EdwardsPoint
+		p.MultiscalarMulVartime(ss, ps)
+		var rp curve.RistrettoPoint
+		rps := make([]*curve.RistrettoPoint, n)
+		for j := range rps {
+			rps[j] = curve.RISTRETTO_BASEPOINT_POINT
+		}
+		rp.MultiscalarMulVartime(ss, rps)
+		return append(edBytes(&p), risBytes(&rp)...)
+	case 22:
+		v := ed25519.NewBatchVerifier()
+		n := 95 + i%10
+		for j := 0; j < n; j++ {
+			k := j % cNumKeys
+			if i%2 == 0 {
+				v.Add(sh.pub[k], sh.msgs[k], sh.sigs[k])
+			} else {
+				v.AddExpanded(sh.exp[k], sh.msgs[k], sh.sigs[k])
+			}
+		}
+		return []byte{bb(v.VerifyBatchOnly(NewDetReader(uint64(i))))}
 	case 20:
 		// a fault in one call must not poison later calls: the reader fails after i%32 bytes
 		s, err := sh.priv[k].Sign(&failingReader{left: i % 32}, sh.msgs[k], &ed25519.Options{AddedRandomness: true, Context: "ctx"})
@@ -335,6 +369,9 @@ func runC18C(e *Env, r *core.Run) {
 			o := cOp{t.W(cNumOps), t.W(24)}
 			if focus < cNumOps && t.W(2) == 0 {
 				o.kind = focus
+			}
+			if o.kind >= 21 && t.W(3) != 2 {
+				o.kind = t.W(21) // the two Pippenger-sized operations are expensive: keep one in three
 			}
 			scripts[i] = append(scripts[i], o)
 			total++
